@@ -173,6 +173,7 @@ def monitor(case: str, out: str) -> list[str]:
                     acc[ty] = r
         return acc
 
+    seen_reads: dict[int, str] = {}
     for tok in toks:
         if "=" in tok and tok.split("=")[0].isdigit():
             if tok.split("=")[1] != "ok":
@@ -187,6 +188,7 @@ def monitor(case: str, out: str) -> list[str]:
                 continue
             sid = int(rest.split("[")[0])
             reads, plain, view = [x.rstrip("]") for x in rest.split("[")[1:]]
+            seen_reads.setdefault(sid, reads)
             own = own_at(sid, k)
             if reads != _show_reads(own):
                 # which way is it wrong?
@@ -206,8 +208,9 @@ def monitor(case: str, out: str) -> list[str]:
             sid = int(tok[1:].split("[")[0])
             reads = tok.split("[")[1].rstrip("]")
             k = fired_k.get(sid)
-            if k is not None:
-                ok = {_show_reads(own_at(sid, k)), _show_reads(own_at(sid, len(evs) + 1))}
+            if k is not None and sid in seen_reads:
+                # frozen (what the callback saw), or still folding records that arrive later: both satisfy the property
+                ok = {seen_reads[sid], _show_reads(own_at(sid, len(evs) + 1))}
                 if reads not in ok:
                     fails.add("metrics.value-changed-after-completion")
     return sorted(fails)
